@@ -42,7 +42,48 @@ for _i in range(NF):
         ATOM["%s%d" % (_b, _i)] = _n + _i
 for _k, _t in enumerate(["T", "U", "i32", "u8", "String", "Vec<T>", "&'static str", "Option<U>", "[u8; 4]", "X"]):
     ATOM[_t] = 80 + _k
+# the same universe types reached through a path: the first segment collides with attribute words / legacy names
+PATH_PREFIXES = ["types", "self", "crate", "crate::m", "m::types", "forward", "skip", "ignore", "r#ref", "owned", "ref_mut"]
+INTO_SAFE_PREFIXES = PATH_PREFIXES[:9]      # `owned::X` / `ref_mut::X` at the top level of #[into(..)]: see the report
+_n = 1000
+for _p in PATH_PREFIXES:
+    for _b in ("F", "Pa", "Pb", "Qa", "Qb", "Ra", "Rb"):
+        for _i in range(NF):
+            ATOM["%s::%s%d" % (_p, _b, _i)] = _n
+            _n += 1
+ATOM["::std::string::String"] = 900
 ATOM_REV = {v: k for k, v in ATOM.items()}
+
+
+def norm_ty(t):
+    """the type a (possibly path-spelled) type denotes in the run-time universe"""
+    if isinstance(t, tuple):
+        return tuple(norm_ty(x) for x in t)
+    if isinstance(t, str) and "::" in t:
+        return t.rsplit("::", 1)[1]
+    return t
+
+
+def norm_deep(x):
+    """norm_ty over every type inside a case / a model answer (types are the str leaves that name atoms)"""
+    if isinstance(x, dict):
+        return {k: (v if k in ("derive", "kind", "style", "spell", "raw", "rt", "gen") else norm_deep(v)) for k, v in x.items()}
+    if isinstance(x, tuple):
+        return tuple(norm_deep(v) for v in x)
+    if isinstance(x, list):
+        return [norm_deep(v) for v in x]
+    if isinstance(x, str) and "::" in x and x in ATOM:
+        return norm_ty(x)
+    return x
+
+
+def is_f(t):
+    return isinstance(t, str) and t[:1] == "F" and t[1:].isdigit()
+
+
+def has_path_listed(case):
+    return "::" in json.dumps([case.get("attrs"), case.get("sattrs"), case.get("variants"),
+                               [f[1] for f in case["fields"]] if case["derive"] == "Into" else None])
 
 
 def coq_ty(t):
@@ -660,6 +701,14 @@ impl<T: ?Sized> NoImpl for T {}
 pub struct Wrap<T, U>(PhantomData<(T, U)>);
 impl<T: From<U>, U> Wrap<T, U> { pub const B: bool = true; }
 macro_rules! impls_from { ($t:ty, $u:ty) => { <Wrap<$t, $u>>::B } }
+pub mod types { pub use super::*; }
+pub mod forward { pub use super::*; }
+pub mod skip { pub use super::*; }
+pub mod ignore { pub use super::*; }
+pub mod owned { pub use super::*; }
+pub mod ref_mut { pub use super::*; }
+pub mod r#ref { pub use super::*; }
+pub mod m { pub use super::*; }
 macro_rules! fam { ($F:ident $Pa:ident $Pb:ident $Qa:ident $Qb:ident $Ra:ident $Rb:ident) => {
     #[derive(Debug, PartialEq, Clone)] pub struct $Ra(pub u32);
     #[derive(Debug, PartialEq, Clone)] pub struct $Rb(pub u32);
@@ -698,6 +747,35 @@ def getter(t):
     return ".v" if t.startswith("F") else ".0"
 
 
+def show_expr(expr, t):
+    """Rust expression (a String) showing the value `expr` of type t: leaves joined by `+`, `unit` for `()`"""
+    if isinstance(t, tuple):
+        if not t:
+            return '"unit".to_string()'
+        return "[%s].join(\"+\")" % ", ".join(show_expr("%s.%d" % (expr, i), x) for i, x in enumerate(t))
+    return "%s%s.to_string()" % (expr, getter(t))
+
+
+def show_val(t, v):
+    """what show_expr prints for the value mk_val(t, v) (v already includes conversion offsets for atoms)"""
+    if not isinstance(v, int):
+        return str(v)
+    if isinstance(t, tuple):
+        return "+".join(show_val(x, v + j) for j, x in enumerate(t)) if t else "unit"
+    return str(v)
+
+
+def show_vals(tys, vals):
+    return ",".join(show_val(t, v) for t, v in zip(tys, vals))
+
+
+def into_target_src(kind, comps, static=True):
+    """Rust source of the target of an Into impl: one component per converted field, each behind the reference kind"""
+    pre = "" if kind == "owned" else "&%s%s" % ("'static " if static else "", "mut " if kind == "ref_mut" else "")
+    parts = [pre + rust_ty(c) for c in comps]
+    return parts[0] if len(parts) == 1 else "(%s)" % ", ".join(parts)
+
+
 def from_convertible(x, f):
     """is `f: From<x>` implemented in the universe (for a field type f)"""
     return x == f or ("owned", x, f) in MARK
@@ -706,7 +784,7 @@ def from_convertible(x, f):
 def unify_src(pattern, x, ftys):
     """does the impl whose source type is `pattern` (ints = the forward parameter of that field) apply to X"""
     if isinstance(pattern, int):
-        return isinstance(x, str) and from_convertible(x, ftys[pattern])
+        return from_convertible(x, ftys[pattern])
     if isinstance(pattern, str):
         return pattern == x
     return isinstance(x, tuple) and len(x) == len(pattern) and all(unify_src(p, y, ftys) for p, y in zip(pattern, x))
@@ -717,7 +795,8 @@ def may_overlap(p, fp, q, fq):
     if isinstance(p, int) and isinstance(q, int):
         return True
     if isinstance(p, int):
-        return isinstance(q, str) and from_convertible(q, fp[p])
+        # `Tuple: From<T>` can never be ruled out by rustc's coherence check (foreign trait, foreign type)
+        return isinstance(fp[p], tuple) or from_convertible(q, fp[p])
     if isinstance(q, int):
         return may_overlap(q, fq, p, fp)
     if isinstance(p, str) or isinstance(q, str):
@@ -755,6 +834,10 @@ def pick_fields(rng, n, rt):
         f = "F%d" % rng.randrange(NF)
         return [f] * n            # same type everywhere: a permutation is then visible only in the values
     pool = ["F%d" % i for i in range(NF)]
+    if rng.random() < 0.2:
+        # fields whose type is itself a tuple: `()`, a 1-tuple, pairs, nested
+        a, b, c = rng.sample(pool, 3)
+        pool += rng.sample([(), (a,), (a, b), (b, a, c), ((a, b), c), (a, (c,)), ((),), (b, ())], rng.choice([1, 2, 3]))
     if not rt and rng.random() < 0.35:
         pool += ["T", "U", "i32", "u8", "String", "Vec<T>", "&'static str", "Option<U>", "[u8; 4]", ("i32", "u8")]
     rng.shuffle(pool)
@@ -764,6 +847,19 @@ def pick_fields(rng, n, rt):
 
 
 N_WEIGHTS = [0, 1, 1, 1, 2, 2, 2, 2, 3, 3, 3, 4, 4, 5, 6, 2, 3, 9, 12]     # 12: `value.10`, `value.11`
+
+
+def sole_tuple_field(rng):
+    """the type of a field that is the only one taking part in a conversion and is itself a tuple"""
+    a, b, c = rng.sample(["F%d" % i for i in range(NF)], 3)
+    return rng.choice([(), (a,), (a, b), (a, b), (a, b, c), ((a, b), c), ((a,),), (a, ())])
+
+
+def spell_path(rng, t, into):
+    """sometimes reach a universe type through a module path whose first segment is an attribute word"""
+    if isinstance(t, str) and t[:1] in "FPQR" and "::" not in t and rng.random() < 0.18:
+        return "%s::%s" % (rng.choice(INTO_SAFE_PREFIXES if into else PATH_PREFIXES), t)
+    return t
 
 
 def style_for(rng, n):
@@ -778,7 +874,7 @@ def listed_from(rng, ftys, rt):
         if isinstance(f, str) and f.startswith("F") and f[1:].isdigit():
             return rng.choice(["Pa" + f[1:], "Pb" + f[1:], f])
         return f if rt or rng.random() < 0.7 else rng.choice(["i32", "String", "X"])
-    cs = [comp(f) for f in ftys]
+    cs = [spell_path(rng, comp(f), False) for f in ftys]
     if len(cs) == 1:
         return cs[0]
     return tuple(cs)
@@ -811,6 +907,8 @@ def gen_from_attrs(rng, ftys, rt, variant):
         pool = [None, ["skip"], ["ignore"], ["forward"], [listed_from(rng, ftys, False)], [bad_listed(rng, ftys)],
                 [listed_from(rng, ftys, False), bad_listed(rng, ftys)], [], ["skip", "X"], ["forward", "X"]]
         return [rng.choice(pool) for _ in range(rng.choice([1, 1, 2, 2, 3]))]
+    if rt and len(ftys) == 1 and isinstance(ftys[0], tuple):
+        return rng.choice([[], [], [["forward"]]] + ([[None], [["skip"]]] if variant else []))
     if variant:
         if r < 0.38:
             return []
@@ -850,6 +948,8 @@ def gen_from(rng, rt):
     if rng.random() < 0.45:
         n = rng.choice(N_WEIGHTS)
         ftys = pick_fields(rng, n, rt)
+        if rng.random() < 0.1:
+            n, ftys = 1, [sole_tuple_field(rng)]
         return {"derive": "From", "kind": "struct", "gen": gen, "style": style_for(rng, n),
                 "attrs": gen_from_attrs(rng, ftys, rt, False), "fields": ftys, "rt": rt, "spell": gen_spell(rng),
                 "raw": gen_raw(rng)}
@@ -857,6 +957,8 @@ def gen_from(rng, rt):
     for _ in range(rng.choice([1, 2, 2, 3, 3, 4, 5])):
         n = rng.choice([0, 0, 1, 1, 1, 2, 2, 3, 4])
         ftys = pick_fields(rng, n, rt)
+        if rng.random() < 0.06:
+            n, ftys = 1, [sole_tuple_field(rng)]
         vs.append({"style": style_for(rng, n), "attrs": gen_from_attrs(rng, ftys, rt, True), "fields": ftys})
     return {"derive": "From", "kind": "enum", "gen": gen, "variants": vs, "rt": rt, "spell": gen_spell(rng),
             "raw": gen_raw(rng)}
@@ -868,9 +970,9 @@ def listed_into(rng, src, kind, rt):
             alts = ["Qa", "Qb"] if kind == "owned" else ["Ra", "Rb"]
             return rng.choice([alts[0] + f[1:], alts[1] + f[1:], f])
         return f
-    cs = [comp(f) for f in src]
+    cs = [spell_path(rng, comp(f), True) for f in src]
     if len(cs) == 1:
-        if rng.random() < (0.06 if rt else 0.1):
+        if rng.random() < (0.06 if rt else 0.1) and not isinstance(cs[0], tuple):
             return (cs[0],)            # a one-element tuple type `(T,)` listed for a single field
         return cs[0]
     return tuple(cs)
@@ -880,17 +982,20 @@ def gen_conv_attrs(rng, src, rt, allow_empty_list):
     """attributes describing conversions of the fields `src` (types)"""
     n_attr = rng.choice([1, 1, 1, 2])
     attrs = []
+    # run-time stream: no listed type when nothing is converted, nor when the only converted field is a tuple
+    # (a listed tuple type for ONE field is split into its elements by validate_type: see the report)
+    no_listed = rt and (len(src) == 0 or (len(src) == 1 and isinstance(src[0], tuple)))
     for _ in range(n_attr):
         r = rng.random()
         if r < 0.2:
             attrs.append(None)
             continue
-        if r < 0.4 and (len(src) > 0 or not rt):
+        if r < 0.4 and not no_listed:
             attrs.append([["t", listed_into(rng, src, "owned", rt)] for _ in range(rng.choice([1, 1, 2]))])
             continue
         items = []
         for k in rng.sample(KINDS, rng.choice([1, 2, 2, 3])):
-            if rng.random() < 0.55 or (rt and len(src) == 0):
+            if rng.random() < 0.55 or no_listed:
                 items.append(["k", k, None])
             else:
                 items.append(["k", k, [listed_into(rng, src, k, rt) for _ in range(rng.choice([1, 1, 2]))]])
@@ -900,7 +1005,7 @@ def gen_conv_attrs(rng, src, rt, allow_empty_list):
             # the same wrapper more than once in this one attribute (types accumulate, bare forms too), interleaved
             for _ in range(rng.choice([1, 1, 2])):
                 k = rng.choice([it[1] for it in items])
-                extra = ["k", k, None] if rng.random() < 0.25 or (rt and len(src) == 0) else \
+                extra = ["k", k, None] if rng.random() < 0.25 or no_listed else \
                     ["k", k, [listed_into(rng, src, k, rt) for _ in range(rng.choice([1, 1, 2]))]]
                 items.insert(rng.randrange(len(items) + 1), extra)
         if not rt and rng.random() < 0.1:
@@ -918,10 +1023,19 @@ def gen_into(rng, rt):
     gen = 0 if rt or rng.random() < 0.6 else rng.randrange(1, len(GENERICS))
     n = rng.choice(N_WEIGHTS)
     ftys = pick_fields(rng, n, rt)
+    sole = None
+    if rng.random() < 0.1:
+        # exactly one field takes part and its type is a tuple; the others (if any) are skipped
+        n = rng.choice([1, 1, 2, 3])
+        sole = rng.randrange(n)
+        ftys = pick_fields(rng, n, rt)
+        ftys[sole] = sole_tuple_field(rng)
     fields = []
-    for t in ftys:
+    for idx, t in enumerate(ftys):
         attrs = []
         r = rng.random()
+        if sole is not None:
+            r = 1.0 if idx == sole else 0.0
         if r < 0.22:
             attrs.append([["t", rng.choice(["skip", "ignore"])]])
         if rng.random() < 0.14:
@@ -946,6 +1060,9 @@ def gen_into(rng, rt):
 def gen_ctor(rng, rt):
     gen = 0 if rt or rng.random() < 0.6 else rng.randrange(1, len(GENERICS))
     n = rng.choice(N_WEIGHTS)
+    if rng.random() < 0.1:
+        return {"derive": "Constructor", "gen": gen, "style": style_for(rng, 1), "fields": [sole_tuple_field(rng)], "rt": rt,
+                "spell": gen_spell(rng), "raw": gen_raw(rng)}
     return {"derive": "Constructor", "gen": gen, "style": style_for(rng, n), "fields": pick_fields(rng, n, rt), "rt": rt,
             "spell": gen_spell(rng), "raw": gen_raw(rng)}
 
@@ -1010,6 +1127,43 @@ CORPUS = [
      "sattrs": [[["k", "ref_mut", [("Rb0", "Ra1", "F2")]]]], "fields": [["F0", []], ["F1", []], ["F2", []]]},
     {"derive": "Into", "gen": 0, "style": "tuple", "rt": False, "spell": "trail",
      "sattrs": [[["k", "owned", [("F0", "F1", "F1")]]]], "fields": [["F0", []], ["F1", []]]},
+    # a tuple-typed field that is the only one taking part is ONE component (never split, never re-wrapped)
+    {"derive": "Into", "gen": 0, "style": "tuple", "rt": True,
+     "sattrs": [[["k", "owned", None], ["k", "ref", None], ["k", "ref_mut", None]]], "fields": [[("F0", "F1"), []]]},
+    {"derive": "Into", "gen": 0, "style": "named", "rt": True, "sattrs": [],
+     "fields": [["F2", [[["t", "skip"]]]], [("F0", "F1"), []]]},
+    {"derive": "Into", "gen": 0, "style": "tuple", "rt": True, "sattrs": [[["k", "owned", None], ["k", "ref", None]]],
+     "fields": [[(), []]]},
+    {"derive": "Into", "gen": 0, "style": "tuple", "rt": True, "sattrs": [[["k", "ref_mut", None], ["k", "owned", None]]],
+     "fields": [[("F0",), []], ["F1", [[["t", "ignore"]]]]]},
+    {"derive": "Into", "gen": 0, "style": "tuple", "rt": True, "sattrs": [],
+     "fields": [[(("F0", "F1"), "F2"), [[["k", "ref", None], ["k", "owned", None]]]], ["F3", []]]},
+    {"derive": "From", "kind": "struct", "gen": 0, "style": "tuple", "attrs": [], "fields": [("F0", "F1")], "rt": True},
+    {"derive": "From", "kind": "struct", "gen": 0, "style": "named", "attrs": [["forward"]], "fields": [("F0",)], "rt": True},
+    {"derive": "From", "kind": "enum", "gen": 0, "rt": True, "variants": [
+        {"style": "tuple", "attrs": [], "fields": [("F0", "F1", "F2")]},
+        {"style": "tuple", "attrs": [], "fields": [()]},
+        {"style": "named", "attrs": [], "fields": [(("F3",),)]},
+        {"style": "tuple", "attrs": [], "fields": ["F4", ("F5", "F6")]}]},
+    {"derive": "Constructor", "gen": 0, "style": "tuple", "fields": [("F0", "F1")], "rt": True},
+    {"derive": "Constructor", "gen": 0, "style": "named", "fields": [()], "rt": True},
+    {"derive": "Constructor", "gen": 0, "style": "tuple", "fields": [("F2",)], "rt": True},
+    # listed types reached through a path whose first segment is an attribute word / the legacy `types`
+    {"derive": "From", "kind": "struct", "gen": 0, "style": "tuple", "attrs": [["types::Pa0", "Pb0"]], "fields": ["F0"], "rt": True},
+    {"derive": "From", "kind": "struct", "gen": 0, "style": "tuple", "attrs": [["Pb0", "types::Pa0"]], "fields": ["F0"], "rt": True},
+    {"derive": "From", "kind": "struct", "gen": 0, "style": "named",
+     "attrs": [[("types::Pa0", "forward::Pb1"), ("skip::Pb0", "m::types::Pa1")]], "fields": ["F0", "F1"], "rt": True},
+    {"derive": "From", "kind": "enum", "gen": 0, "rt": True, "variants": [
+        {"style": "tuple", "attrs": [["types::Pa1", "ignore::Pb1"]], "fields": ["F1"]},
+        {"style": "tuple", "attrs": [["owned::Pa2"], ["r#ref::Pb2"]], "fields": ["F2"]},
+        {"style": "named", "attrs": [[("self::Pa3", "crate::m::F4")]], "fields": ["F3", "F4"]}]},
+    {"derive": "From", "kind": "struct", "gen": 0, "style": "tuple",
+     "attrs": [["::std::string::String", "self::Pa0", "crate::m::Pb0"]], "fields": ["F0"], "rt": False},
+    {"derive": "Into", "gen": 0, "style": "tuple", "rt": True, "sattrs": [[["t", "types::Qa0"], ["t", "skip::Qb0"]]],
+     "fields": [["F0", []]]},
+    {"derive": "Into", "gen": 0, "style": "named", "rt": True,
+     "sattrs": [[["k", "ref", [("types::Ra0", "ignore::F1")]], ["k", "owned", [("forward::Qa0", "crate::Qb1")]]]],
+     "fields": [["F0", [[["t", "ignore::Qa0"]]]], ["F1", [[["k", "ref_mut", ["r#ref::Rb1"]]]]]]},
     # the same wrapper several times in ONE attribute: every occurrence counts
     {"derive": "Into", "gen": 0, "style": "tuple", "rt": True,
      "sattrs": [[["k", "owned", ["Qa0"]], ["k", "ref", ["F0"]], ["k", "ref_mut", ["F0"]], ["k", "owned", ["Qb0"]]]],
@@ -1084,7 +1238,7 @@ def observe_fields_expr(style, ftys, var, raw=False):
     """Rust expression producing "v0,v1" from the fields of `var`"""
     if not ftys:
         return "String::new()"
-    parts = ["%s.%s%s.to_string()" % (var, field_ident(style, i, raw), getter(t)) for i, t in enumerate(ftys)]
+    parts = [show_expr("%s.%s" % (var, field_ident(style, i, raw)), t) for i, t in enumerate(ftys)]
     return "[%s].join(\",\")" % ", ".join(parts)
 
 
@@ -1092,11 +1246,11 @@ def fmt_vals(vals):
     return ",".join(str(v) for v in vals)
 
 
-def rt_from(case, cid, impls, rng, mode=None):
-    """module source + expected observations for one From case"""
+def rt_from(case, cid, impls, rng, mode=None, orig=None):
+    """module source + expected observations for one From case (`case`/`impls` with normalised types, `orig` as written)"""
     is_enum = case["kind"] == "enum"
     name = "E" if is_enum else "S"
-    lines = ["#[derive(derive_more::From)] " + item_src(case, name)]
+    lines = ["#[derive(derive_more::From)] " + item_src(orig or case, name)]
     body = []
     obs = []
     oracle = oracle_from(case)
@@ -1121,7 +1275,7 @@ def rt_from(case, cid, impls, rng, mode=None):
                     pat = "E::V%d { %s }" % (k, ", ".join("%s: x%d" % (fname(case.get("raw"), i), i) for i in range(n)))
                 else:
                     pat = "E::V%d(%s)" % (k, ", ".join(binds))
-                vals = "[%s].join(\",\")" % ", ".join("x%d%s.to_string()" % (i, getter(t)) for i, t in enumerate(v["fields"])) \
+                vals = "[%s].join(\",\")" % ", ".join(show_expr("x%d" % i, t) for i, t in enumerate(v["fields"])) \
                     if n else "String::new()"
             arms.append('%s => format!("V%d:{}", %s)' % (pat, k, vals))
         return "match %s { %s }" % (expr_var, ", ".join(arms))
@@ -1132,7 +1286,7 @@ def rt_from(case, cid, impls, rng, mode=None):
         ginst = {}
         for g in range(d["ngen"]):
             f = ftys[g]
-            ginst[g] = rng.choice(["Pa" + f[1:], "Pb" + f[1:], f])
+            ginst[g] = rng.choice(["Pa" + f[1:], "Pb" + f[1:], f] if is_f(f) else [f])
 
         def inst(t):
             if isinstance(t, int):
@@ -1149,7 +1303,7 @@ def rt_from(case, cid, impls, rng, mode=None):
         mlog = []
         mvals = [eval_value(v, ginst, mlog) for v in d["sem"]] if d["sem"] is not None else None
         tag = "S" if d["variant"] is None else "V%d" % d["variant"]
-        m_exp = None if mvals is None else "%s:%s|%s" % (tag, fmt_vals(mvals), ",".join(mlog))
+        m_exp = None if mvals is None else "%s:%s|%s" % (tag, show_vals(ftys, mvals), ",".join(mlog))
         tlog = ["%s>%s" % (ginst.get(a, a) if isinstance(a, int) else a, b) for (a, b) in d["trace"]
                 if (ginst.get(a, a) if isinstance(a, int) else a) != b]
         if mvals is not None and tlog != mlog:
@@ -1174,7 +1328,7 @@ def rt_from(case, cid, impls, rng, mode=None):
                     v += mk
                     olog.append("%s>%s" % (a, f))
                 vals.append(v)
-            o_exp = "%s:%s|%s" % ("S" if ov is None else "V%d" % ov, fmt_vals(vals), ",".join(olog))
+            o_exp = "%s:%s|%s" % ("S" if ov is None else "V%d" % ov, show_vals(oftys, vals), ",".join(olog))
             break
         obs.append({"id": oid, "what": "value", "model": m_exp, "oracle": o_exp,
                     "desc": "%s::from(%s)" % (name, mk_val(x, 10))})
@@ -1185,9 +1339,11 @@ def rt_from(case, cid, impls, rng, mode=None):
         cands.append(own_tuple(ftys))
         if len(ftys) >= 2:
             cands.append(tuple(reversed(ftys)))
-            cands.append(tuple("Pa" + f[1:] for f in ftys))
-        if len(ftys) == 1:
+            cands.append(tuple("Pa" + f[1:] if is_f(f) else f for f in ftys))
+        if len(ftys) == 1 and is_f(ftys[0]):
             cands.append("Pb" + ftys[0][1:])
+        if len(ftys) == 1 and isinstance(ftys[0], tuple):
+            cands += list(ftys[0][:2]) + [(ftys[0],)]          # a component of the field's tuple / a 1-tuple around it
     cands.append(())
     for (ov, osrc, _, _) in oracle:
         if not any(isinstance(z, int) for z in (osrc if isinstance(osrc, tuple) else (osrc,))):
@@ -1218,11 +1374,11 @@ def ref_ty(kind, t):
     return "&'static %s%s" % ("mut " if kind == "ref_mut" else "", rust_ty(t))
 
 
-def rt_into(case, cid, impls, rng, mode=None):
+def rt_into(case, cid, impls, rng, mode=None, orig=None):
     style = case["style"]
     ftys = [f[0] for f in case["fields"]]
     n = len(ftys)
-    lines = ["#[derive(derive_more::Into)] " + item_src(case, "S")]
+    lines = ["#[derive(derive_more::Into)] " + item_src(orig or case, "S")]
     if style == "unit":
         mk = "S"
     elif style == "named":
@@ -1245,26 +1401,26 @@ def rt_into(case, cid, impls, rng, mode=None):
         mv = eval_value(d["sem"], {}, mlog) if d["sem"] is not None else None
         if mv is not None and not isinstance(mv, list):
             mv = [mv]
-        m_exp = None if mv is None else "%s|%s" % (fmt_vals(mv), ",".join(mlog))
+        m_exp = None if mv is None else "%s|%s" % (show_vals(tys, mv), ",".join(mlog))
         if kind == "owned":
-            tsrc = "(%s)" % ", ".join(rust_ty(t) for t in tys) if m != 1 else rust_ty(tys[0])
+            tsrc = into_target_src(kind, tys)
             if m == 1:
-                vals = "t%s.to_string()" % getter(tys[0])
+                vals = show_expr("t", tys[0])
             elif m == 0:
                 vals = "String::new()"
             else:
-                vals = "[%s].join(\",\")" % ", ".join("t.%d%s.to_string()" % (i, getter(t)) for i, t in enumerate(tys))
+                vals = "[%s].join(\",\")" % ", ".join(show_expr("t.%d" % i, t) for i, t in enumerate(tys))
             body.append("{ take_log(); let s = %s; let t: %s = From::from(s); let o = %s; println!(\"%s\\t{}|{}\", o, take_log()); }"
                         % (mk, tsrc, vals, oid))
         else:
             mut = "mut " if kind == "ref_mut" else ""
-            tsrc = "(%s)" % ", ".join("&%s%s" % (mut, rust_ty(t)) for t in tys) if m != 1 else "&%s%s" % (mut, rust_ty(tys[0]))
+            tsrc = into_target_src(kind, tys, static=False)
 
             def cands(t):
-                sub = "" if t.startswith("F") else (".ra" if t.startswith("Ra") else ".rb")
+                sub = "" if (isinstance(t, tuple) or is_f(t)) else (".ra" if t.startswith("Ra") else ".rb")
                 cs = []
                 for i, f in enumerate(ftys):
-                    ok = (f == t) if sub == "" else (f[1:] == t[2:])
+                    ok = (f == t) if sub == "" else (is_f(f) and f[1:] == t[2:])
                     cs.append("ad(&s.%s%s)" % (field_ident(style, i, case.get("raw")), sub) if ok else "0usize")
                 return "[%s]" % ", ".join(cs), sub
             pre, post = [], []
@@ -1277,9 +1433,11 @@ def rt_into(case, cid, impls, rng, mode=None):
             body.append("{ take_log(); let %ss = %s; %s let t: %s = From::from(&%ss); let o: String = %s; println!(\"%s\\t{}|{}\", o, take_log()); }"
                         % (mut, mk, " ".join(pre), tsrc, mut, vals, oid))
         # documented rules
-        o_exp = "no documented impl From<%sS> for %s" % ({"owned": "", "ref": "&", "ref_mut": "&mut "}[kind], rust_ty(tgt))
+        o_exp = "no documented impl From<%sS> for %s" % ({"owned": "", "ref": "&", "ref_mut": "&mut "}[kind],
+                                                          into_target_src(kind, tys, static=False))
         for (ok, ot, ocomps) in oracle:
-            if ok != kind or ot != tgt or ocomps is None:
+            if ok != kind or ocomps is None or \
+                    into_target_src(ok, [c for (_i, _f, c) in ocomps]) != into_target_src(kind, tys):
                 continue
             vals, olog = [], []
             for (i, f, c) in ocomps:
@@ -1303,36 +1461,42 @@ def rt_into(case, cid, impls, rng, mode=None):
                         vals.append("%d.%s" % (i, mkk))
                     else:
                         vals.append(str(i))
-            o_exp = "%s|%s" % (fmt_vals(vals), ",".join(olog))
+            o_exp = "%s|%s" % (show_vals([c for (_i, _f, c) in ocomps], vals), ",".join(olog))
             break
         obs.append({"id": oid, "what": "value", "model": m_exp, "oracle": o_exp,
                     "desc": "<%s as From<%sS>>::from" % (tsrc, {"owned": "", "ref": "&", "ref_mut": "&mut "}[kind])})
     # probes
     src = [t for t, a in case["fields"]
            if not any(x is not None and len(x) == 1 and x[0][0] == "t" and x[0][1] in ("skip", "ignore") for x in a)]
-    cands = [(d["kind"], paren_list(list(d["tys"]))) for d in impls]
-    cands += [(k, t) for (k, t, _) in oracle]
+    # candidates: (kind, components of the target), identified by the rendered target type
+    cands = [(d["kind"], list(d["tys"])) for d in impls]
+    cands += [(k, [c for (_i, _f, c) in comps]) for (k, _t, comps) in oracle if comps is not None]
     for k in KINDS:
-        cands.append((k, own_tuple(src)))
-        cands.append((k, own_tuple(ftys)))
+        cands.append((k, list(src)))
+        cands.append((k, list(ftys)))
         if len(src) >= 2:
-            cands.append((k, tuple(reversed(src))))
+            cands.append((k, list(reversed(src))))
         for t in ftys[:2]:
-            cands.append((k, t))
-    seen = []
-    for c in cands:
-        if c not in seen:
-            seen.append(c)
-    for j, (k, t) in enumerate(seen[:16]):
+            cands.append((k, [t]))
+        if len(src) == 1 and isinstance(src[0], tuple):
+            cands.append((k, list(src[0])))                 # the sole field's tuple split into its components
+            cands.append((k, [(src[0],)]))                  # ... or wrapped once more
+            cands += [(k, [x]) for x in src[0][:1]]
+    seen, seen_src = [], []
+    for (k, comps) in cands:
+        r = (k, into_target_src(k, comps))
+        if r not in seen_src:
+            seen_src.append(r)
+            seen.append((k, comps))
+    o_set = set((ok, into_target_src(ok, [c for (_i, _f, c) in oc])) for (ok, _t, oc) in oracle if oc is not None)
+    m_set = set((d["kind"], into_target_src(d["kind"], d["tys"])) for d in impls)
+    for j, (k, comps) in enumerate(seen[:18]):
         oid = "%s.p%d" % (cid, j)
-        if isinstance(t, tuple):
-            tsrc = "(%s%s)" % (", ".join(ref_ty(k, x) for x in t), "," if len(t) == 1 else "")
-        else:
-            tsrc = ref_ty(k, t)
+        tsrc = into_target_src(k, comps)
         me = {"owned": "S", "ref": "&'static S", "ref_mut": "&'static mut S"}[k]
         body.append('println!("%s\\t{}", impls_from!(%s, %s));' % (oid, tsrc, me))
-        o_exp = any(ok == k and ot == t for (ok, ot, _) in oracle)
-        m_exp = any(d["kind"] == k and paren_list(list(d["tys"])) == t for d in impls)
+        o_exp = (k, tsrc) in o_set
+        m_exp = (k, tsrc) in m_set
         obs.append({"id": oid, "what": "probe", "model": str(m_exp).lower(), "oracle": str(o_exp).lower(),
                     "desc": "%s: From<%s>" % (tsrc, me)})
     if mode is not None:
@@ -1367,8 +1531,8 @@ def rt_roundtrip(case, cid, m_ctor):
         "let t3: %s = From::from(s);" % tsrc,
         'println!("%s.rt3\\t{}", t3 == t);' % cid,
     ]
-    vals = fmt_vals([10 + i for i in range(n)])
-    mvals = fmt_vals([eval_value(v, {}, []) for v in m_ctor["sem"]])
+    vals = show_vals(ftys, [10 + i for i in range(n)])
+    mvals = show_vals(ftys, [eval_value(v, {}, []) for v in m_ctor["sem"]])
     obs = [{"id": cid + ".from", "what": "value", "model": vals, "oracle": vals, "desc": "S::from(tuple): field i = component i"},
            {"id": cid + ".rt1", "what": "roundtrip", "model": "true", "oracle": "true", "desc": "into(from(t)) == t"},
            {"id": cid + ".rt2", "what": "roundtrip", "model": "true", "oracle": "true", "desc": "from(into(s)) == s"},
@@ -1433,7 +1597,7 @@ def impls_from_oracle(case):
     if d == "Into":
         out = []
         for (k, t, comps) in oracle_into(case):
-            if comps is None or any(not isinstance(c, str) for (_i, _f, c) in comps):
+            if comps is None:
                 return None
             out.append({"kind": k, "tys": [c for (_i, _f, c) in comps], "inits": [], "sem": None})
         return out
@@ -1458,7 +1622,9 @@ def oracle_eligible(case):
         return True
     if d == "Into":
         o = oracle_into(case)
-        return len(set((k, t) for (k, t, _) in o)) == len(o) and not has_one_tuple(case)
+        if has_one_tuple(case) or any(c is None for (_k, _t, c) in o):
+            return False
+        return len(set((k, into_target_src(k, [x for (_i, _f, x) in c])) for (k, _t, c) in o)) == len(o)
     return True
 
 
@@ -1486,7 +1652,7 @@ def rt_eligible(case, model):
     if d == "Into":
         seen = set()
         for m in model:
-            k = (m["kind"], paren_list(list(m["tys"])))
+            k = (m["kind"], into_target_src(m["kind"], m["tys"]))
             if k in seen or m["sem"] is None or len(m["inits"]) != len(m["tys"]):
                 return False
             seen.add(k)
@@ -1552,7 +1718,8 @@ def run(tier, seed, replay):
         # well-formed input; a listed type of the wrong arity has to be refused
         arity = listed_arity(c) if d != "Constructor" else []
         if r_out != "ok" and c.get("rt"):
-            cls = "listed-tuple-rejected" if has_listed_tuple(c) else "documented-input-rejected"
+            cls = "listed-path-type-rejected" if has_path_listed(c) else \
+                ("listed-tuple-rejected" if has_listed_tuple(c) else "documented-input-rejected")
             chk.violation(cls, {"case": c, "item": item_src(c), "code": r},
                           "the documented, well-formed `%s` is not accepted by derive(%s): %s" %
                           (item_src(c), d, r.get("err") or r.get("panic")))
@@ -1603,8 +1770,10 @@ def run(tier, seed, replay):
     mods, specs, owner = [], {}, {}
     mods2 = []
     n_mod = 0
-    for idx, (c, m, ok) in enumerate(zip(cases, models, tied)):
+    for idx, (c0, m0, ok) in enumerate(zip(cases, models, tied)):
         cid = "c%d" % idx
+        # the run-time universe knows every type by its plain name; the item is rendered as written (orig=c0)
+        c, m = norm_deep(c0), norm_deep(m0)
         if not ok and "ok" in real[idx] and oracle_eligible(c):
             # the expansion is not what the model says: observe it through the documented rules alone
             m2 = impls_from_oracle(c)
@@ -1615,7 +1784,8 @@ def run(tier, seed, replay):
                     parts = [(cid, rt_roundtrip(c, cid, m2))]
                 else:
                     f = rt_from if c["derive"] == "From" else rt_into
-                    parts = [(cid + "p", f(c, cid + "p", m2, rng, "probes")), (cid + "v", f(c, cid + "v", m2, rng, "values"))]
+                    parts = [(cid + "p", f(c, cid + "p", m2, rng, "probes", c0)),
+                             (cid + "v", f(c, cid + "v", m2, rng, "values", c0))]
                 for (mid, (src, obs)) in parts:
                     mods2.append((mid, src))
                     for o in obs:
@@ -1626,9 +1796,9 @@ def run(tier, seed, replay):
         if not ok or not rt_eligible(c, m):
             continue
         if c["derive"] == "From":
-            src, obs = rt_from(c, cid, m, rng)
+            src, obs = rt_from(c, cid, m, rng, None, c0)
         elif c["derive"] == "Into":
-            src, obs = rt_into(c, cid, m, rng)
+            src, obs = rt_into(c, cid, m, rng, None, c0)
         else:
             src, obs = rt_roundtrip(c, cid, m)
         mods.append((cid, src))
